@@ -33,6 +33,10 @@ var e2eKeys = []e2eKey{
 	{"Fertilization", func(p *gen.Project) string { return strconv.Itoa(p.Cfg.FertPct) }, []string{"50", "120"}},
 	{"CO2StomataInfluence", func(p *gen.Project) string { return strconv.Itoa(p.Cfg.CO2Stomata) }, []string{"on", "off", "0", "1", "yes", "false"}},
 	{"ResultFileFormat", func(p *gen.Project) string { return strconv.Itoa(p.Cfg.ResultFormat) }, []string{"0", "1"}},
+	// a named integer kind: a number on the line, a name in the project file
+	{"GroundWaterFrom", func(p *gen.Project) string {
+		return map[string]string{"polygonfile": "0", "soilfile": "1", "gwTimeSeries": "2", "": "1"}[p.Cfg.GWFrom]
+	}, []string{"0", "1"}},
 	{"VirtualDateFertilizerPrediction", func(p *gen.Project) string { return p.Cfg.VirtualDate }, []string{"--------"}},
 }
 
@@ -53,7 +57,7 @@ func canonArg(v string) string {
 
 func checkC14(c *core.Ctx) {
 	c.Assume = append(c.Assume,
-		"judged keys: every scalar field of the configuration struct of kind float, int, text or on/off (found by reflection); enumeration-typed keys (Dateformat, GroundWaterFrom) and WeatherRootFolder (default = working directory) are not judged; ResultFileExt and WeatherFolder are judged with their documented derived defaults (extension of the effective result style; 'Weather')",
+		"judged keys: every scalar field of the configuration struct of kind float, int, text or on/off (found by reflection); the enumeration-typed keys Dateformat and GroundWaterFrom (named integer kinds) are given as a number on the line and by name in the file; WeatherRootFolder (default = working directory) is not judged; ResultFileExt and WeatherFolder are judged with their documented derived defaults (extension of the effective result style; 'Weather')",
 		"values are compared in a canonical rendering; no key occurs twice on a line (order would matter by construction)")
 	worker, err := c.BuildWorker(false)
 	if err != nil {
@@ -104,6 +108,16 @@ func checkC14(c *core.Ctx) {
 				toks = append(toks, k.name+"="+v)
 			}
 		}
+		// the extension of the result files on the line, also EMPTY (an empty value is a value: it overrides the project
+		// file, and the documented default of the extension then follows the result style in use)
+		switch i % 4 {
+		case 1:
+			args["ResultFileExt"] = ""
+			toks = append(toks, "ResultFileExt=")
+		case 3:
+			args["ResultFileExt"] = "out"
+			toks = append(toks, "ResultFileExt=out")
+		}
 		toks = append(toks, "NoSuchKey=12")
 		for ord := 0; ord < 2; ord++ {
 			p := *base
@@ -149,8 +163,9 @@ func checkC14(c *core.Ctx) {
 			if ents, err := filepath.Glob(filepath.Join(rc.Root, "RESULT_"+rc.P.Name, "Y*")); err == nil && len(ents) > 0 {
 				ext = strings.TrimPrefix(filepath.Ext(ents[0]), ".")
 			}
+			extArg, hasExtArg := vars[i].args["ResultFileExt"]
 			w.Write(map[string]interface{}{"ev": "cfg", "case": 100000 + i, "key": "ResultFileExt", "kind": "e2e-files", "def": def, "hasFile": vars[i].p.Cfg.ResultExt != "", "file": vars[i].p.Cfg.ResultExt,
-				"hasArg": false, "arg": "", "eff": ext, "run": rc.P.Name, "derived": true})
+				"hasArg": hasExtArg, "arg": extArg, "eff": ext, "run": rc.P.Name, "derived": true})
 			e2e++
 		}
 		for _, k := range e2eKeys {
